@@ -118,6 +118,9 @@ func (i *interpreter) scheduleNext(cur *thread, park bool) {
 		}
 		return
 	}
+	if len(i.runq) > 1 {
+		i.concurrent = true // the order of runnable threads is a schedule choice the real runtime makes freely
+	}
 	// non-preemptive switches are deterministic (FIFO); only preemptions at
 	// visible operations are decisions of the path (CHESS-style bounding).
 	k := 0
